@@ -28,12 +28,28 @@ class Doc:
         self.obj2id: dict[int, int] = {}       # id(python object) -> abstract id
         self.objs: dict[int, object] = {}      # abstract id -> python object (elements, comments, PIs)
         last_child: dict[int, object] = {}     # element id -> last appended child object
+        pre_root: list = []                    # document-level comments / PIs before the document element
+        root_id = next((i for i in range(1, n + 1) if parent[i - 1] == 0 and kind[i - 1] in ELEM), 1)
+        last_doc_level = None
         for i in range(1, n + 1):
             k = kind[i - 1]
             p = parent[i - 1]
+            if p == 0 and k in ('c', 'p'):
+                if lib != 'lxml':
+                    raise ValueError('document-level siblings need lxml')
+                el = mod.Comment(f'c{i}') if k == 'c' else mod.ProcessingInstruction('p', f'p{i}')
+                self.objs[i] = el
+                if root_id in self.objs:
+                    (last_doc_level if last_doc_level is not None else self.objs[root_id]).addnext(el)
+                    last_doc_level = el
+                else:
+                    pre_root.append(el)
+                continue
             if k in ELEM:
                 if p == 0:
                     el = mod.Element(ELEM[k])
+                    for x in pre_root:
+                        el.addprevious(x)
                 else:
                     el = mod.SubElement(self.objs[p], ELEM[k])
                     last_child[p] = el
@@ -58,7 +74,9 @@ class Doc:
                 self.objs[i] = el
             else:
                 raise ValueError(k)
-        self.root = self.objs[1]
+        self.doc_siblings = any(parent[i - 1] == 0 and i != root_id for i in range(1, n + 1))
+        self.root_id = root_id
+        self.root = self.objs[root_id]
         self.tree = ET.ElementTree(self.root) if lib == 'etree' else self.root.getroottree()
         for i, o in self.objs.items():
             self.obj2id[id(o)] = i
@@ -86,4 +104,4 @@ class Doc:
     def xml(self) -> str:
         if self.lib == 'etree':
             return ET.tostring(self.root, encoding='unicode')
-        return LX.tostring(self.root, encoding='unicode')
+        return LX.tostring(self.tree if self.doc_siblings else self.root, encoding='unicode')
